@@ -223,6 +223,7 @@ class Interp:
                         return ('body', ex[0])
                     raise Unsupported('ambiguous free fn %s' % callee)
         # library model
+        c = re.sub(r'rust_decimal::[a-z_:]*<impl rust_decimal::Decimal>::', 'rust_decimal::Decimal::', c)
         fn = self.models.get(c)
         if fn is not None:
             return ('model', fn)
